@@ -276,7 +276,8 @@ def scenarios(tier):
             add(g, dims, s1 + s2, final, style, chunk=20 if len(dims) == 3 else 40)
     # random longer histories (fixed seed: the set is the same on every run; every value written is still a fresh symbol)
     import random
-    rnd = random.Random(20260924)
+    import os
+    rnd = random.Random(20260924 + int(os.environ.get('PV_C09_SEED', '0')))      # PV_C09_SEED: exploration only; checks use the fixed set
     for g, dims, cnt in ((('Grid1D', [3], 160), ('Grid2D', [2, 3], 40)) if tier == 'quick' else
                          (('Grid1D', [3], 800), ('Grid2D', [2, 3], 240), ('CylindricalGrid2D', [3, 2], 120), ('Grid3D', [1, 2, 3], 60))):
         al = alphabet(g, dims)
